@@ -199,3 +199,269 @@ Proof. vm_compute. split; reflexivity. Qed.
 (* ... and fails at the witness *)
 Example C20_ex_inexact_product : fmul_exact_b (pow10 2) witness = false.
 Proof. vm_compute. reflexivity. Qed.
+
+(* ================================================================== *)
+(* C20 — the arithmetic modifiers (add, sub, mul, div, abs, inc, dec, sqrt, max, min):
+   "return the float64 result of the named operation on value and argument, whichever numeric
+   type or numeric string the operands arrive as".  Model: Model/Arith.v; every proof is an
+   [exact] of a lemma of Proofs/ArithProofs.v.  round_NE r (Spec/RoundSpec.v) is the binary64
+   nearest to the real r, ties to even; 2^1024 is the overflow threshold.
+   Not modelled: strconv.ParseFloat (numeric strings), NaN payloads. *)
+From DT Require Import Model.Arith Proofs.ArithProofs.
+Local Open Scope R_scope.
+
+(* round_NE is literally Flocq's round-to-nearest-even in the binary64 format *)
+Theorem C20_round_NE_is_flocq : forall r : R,
+  round_NE r = round radix2 (FLT_exp (3 - 1024 - 53) 53) (round_mode mode_NE) r.
+Proof. exact round_NE_flocq. Qed.
+Print Assumptions C20_round_NE_is_flocq.
+
+(* ---- 1. + - * / sqrt are the correctly rounded real operation ---- *)
+Theorem C20_add_correct : forall x y : f64, is_finite x = true -> is_finite y = true ->
+  Rabs (round_NE (B2R x + B2R y)) < bpow radix2 1024 ->
+  B2R (fadd x y) = round_NE (B2R x + B2R y) /\ is_finite (fadd x y) = true.
+Proof. exact add_correct. Qed.
+Print Assumptions C20_add_correct.
+
+Theorem C20_sub_correct : forall x y : f64, is_finite x = true -> is_finite y = true ->
+  Rabs (round_NE (B2R x - B2R y)) < bpow radix2 1024 ->
+  B2R (fsub x y) = round_NE (B2R x - B2R y) /\ is_finite (fsub x y) = true.
+Proof. exact sub_correct. Qed.
+Print Assumptions C20_sub_correct.
+
+Theorem C20_mul_correct : forall x y : f64, is_finite x = true -> is_finite y = true ->
+  Rabs (round_NE (B2R x * B2R y)) < bpow radix2 1024 ->
+  B2R (fmul x y) = round_NE (B2R x * B2R y) /\ is_finite (fmul x y) = true.
+Proof. exact mul_correct. Qed.
+Print Assumptions C20_mul_correct.
+
+(* divisor non-zero (which makes it finite); x / +-0 is below *)
+Theorem C20_div_correct : forall x y : f64, is_finite x = true -> B2R y <> 0 ->
+  Rabs (round_NE (B2R x / B2R y)) < bpow radix2 1024 ->
+  B2R (fdiv x y) = round_NE (B2R x / B2R y) /\ is_finite (fdiv x y) = true.
+Proof. exact div_correct. Qed.
+Print Assumptions C20_div_correct.
+
+Theorem C20_div_by_zero : forall (x : f64) (s : bool), is_finite x = true -> B2R x <> 0 ->
+  fdiv x (B754_zero s) = B754_infinity (xorb (Bsign x) s).
+Proof. exact div_by_zero. Qed.
+Print Assumptions C20_div_by_zero.
+
+(* sqrt cannot overflow.  The value equation holds for every x (for x < 0 both sides are 0: the
+   real sqrt by convention, the float because it is NaN); the other clauses say when the
+   result is a number, and that sqrt(-0) = -0 *)
+Theorem C20_sqrt_correct : forall x : f64,
+  B2R (fsqrt x) = round_NE (sqrt (B2R x)) /\
+  (is_finite x = true -> Bsign x = false -> is_finite (fsqrt x) = true) /\
+  (is_nan (fsqrt x) = false -> Bsign (fsqrt x) = Bsign x).
+Proof. exact sqrt_correct. Qed.
+Print Assumptions C20_sqrt_correct.
+
+Theorem C20_sqrt_negative : forall x : f64, is_finite x = true -> B2R x < 0 -> fsqrt x = B754_nan.
+Proof. exact sqrt_negative. Qed.
+Print Assumptions C20_sqrt_negative.
+
+Theorem C20_sqrt_closed :
+  fsqrt (B754_zero true) = B754_zero true /\ fsqrt (B754_zero false) = B754_zero false /\
+  fsqrt (B754_infinity false) = B754_infinity false /\ fsqrt (B754_infinity true) = B754_nan /\
+  fsqrt B754_nan = B754_nan.
+Proof. exact sqrt_closed. Qed.
+Print Assumptions C20_sqrt_closed.
+
+(* ---- 2. the complementary case: the infinity of the right sign ---- *)
+Theorem C20_add_overflow : forall x y : f64, is_finite x = true -> is_finite y = true ->
+  bpow radix2 1024 <= Rabs (round_NE (B2R x + B2R y)) ->
+  fadd x y = B754_infinity (Bsign x) /\ Bsign x = Bsign y.
+Proof. exact add_overflow. Qed.
+Print Assumptions C20_add_overflow.
+
+Theorem C20_add_overflow_weak : forall x y : f64, is_finite x = true -> is_finite y = true ->
+  bpow radix2 1024 <= Rabs (round_NE (B2R x + B2R y)) ->
+  is_finite (fadd x y) = false /\ is_nan (fadd x y) = false.
+Proof. exact add_overflow_weak. Qed.
+Print Assumptions C20_add_overflow_weak.
+
+Theorem C20_sub_overflow : forall x y : f64, is_finite x = true -> is_finite y = true ->
+  bpow radix2 1024 <= Rabs (round_NE (B2R x - B2R y)) ->
+  fsub x y = B754_infinity (Bsign x) /\ Bsign x = negb (Bsign y).
+Proof. exact sub_overflow. Qed.
+Print Assumptions C20_sub_overflow.
+
+Theorem C20_mul_overflow : forall x y : f64,
+  bpow radix2 1024 <= Rabs (round_NE (B2R x * B2R y)) ->
+  fmul x y = B754_infinity (xorb (Bsign x) (Bsign y)).
+Proof. exact mul_overflow. Qed.
+Print Assumptions C20_mul_overflow.
+
+Theorem C20_div_overflow : forall x y : f64, B2R y <> 0 ->
+  bpow radix2 1024 <= Rabs (round_NE (B2R x / B2R y)) ->
+  fdiv x y = B754_infinity (xorb (Bsign x) (Bsign y)).
+Proof. exact div_overflow. Qed.
+Print Assumptions C20_div_overflow.
+
+(* ---- 3. inc / dec are x + 1 / x - 1 with the float 1, and they never overflow ---- *)
+Theorem C20_inc_dec : forall x y : f64,
+  math_op AInc x y = fadd x (of_Z 1) /\ math_op ADec x y = fsub x (of_Z 1) /\
+  B2R (of_Z 1) = 1 /\ is_finite (of_Z 1) = true.
+Proof. exact inc_dec. Qed.
+Print Assumptions C20_inc_dec.
+
+Theorem C20_inc_correct : forall x y : f64, is_finite x = true ->
+  B2R (math_op AInc x y) = round_NE (B2R x + 1) /\ is_finite (math_op AInc x y) = true.
+Proof. exact inc_correct. Qed.
+Print Assumptions C20_inc_correct.
+
+Theorem C20_dec_correct : forall x y : f64, is_finite x = true ->
+  B2R (math_op ADec x y) = round_NE (B2R x - 1) /\ is_finite (math_op ADec x y) = true.
+Proof. exact dec_correct. Qed.
+Print Assumptions C20_dec_correct.
+
+(* ---- 4. abs: exact; the Go test f < 0 keeps NaN and -0 as they are ---- *)
+Theorem C20_abs_exact : forall x : f64, is_nan_b x = false -> B2R (go_abs x) = Rabs (B2R x).
+Proof. exact abs_exact. Qed.
+Print Assumptions C20_abs_exact.
+
+Theorem C20_abs_closed :
+  go_abs B754_nan = B754_nan /\ go_abs (B754_zero true) = B754_zero true /\
+  go_abs (B754_zero false) = B754_zero false /\
+  go_abs (B754_infinity true) = B754_infinity false /\
+  go_abs (B754_infinity false) = B754_infinity false.
+Proof. exact abs_closed. Qed.
+Print Assumptions C20_abs_closed.
+
+(* everywhere except at -0 it is the IEEE abs (sign bit cleared) *)
+Theorem C20_abs_is_Babs : forall x : f64, x <> B754_zero true -> go_abs x = Babs x.
+Proof. exact abs_is_Babs. Qed.
+Print Assumptions C20_abs_is_Babs.
+
+Theorem C20_abs_total : forall x : f64,
+  is_finite (go_abs x) = is_finite x /\ is_nan (go_abs x) = is_nan x /\
+  (x <> B754_zero true -> Bsign (go_abs x) = false).
+Proof. exact abs_total. Qed.
+Print Assumptions C20_abs_total.
+
+(* ---- 5. max / min ---- *)
+(* finite operands (two zeros included: both sides are 0; their sign is the next theorem):
+   the real maximum / minimum, and the result is one of the operands *)
+Theorem C20_max_min_spec : forall x y : f64, is_finite x = true -> is_finite y = true ->
+  B2R (go_max x y) = Rmax (B2R x) (B2R y) /\ B2R (go_min x y) = Rmin (B2R x) (B2R y) /\
+  is_finite (go_max x y) = true /\ is_finite (go_min x y) = true /\
+  (go_max x y = x \/ go_max x y = y) /\ (go_min x y = x \/ go_min x y = y).
+Proof. exact max_min_value. Qed.
+Print Assumptions C20_max_min_spec.
+
+(* math.Max / math.Min on signed zeros: max prefers +0, min prefers -0 *)
+Theorem C20_max_min_zeros :
+  go_max (B754_zero false) (B754_zero true) = B754_zero false /\
+  go_max (B754_zero true) (B754_zero false) = B754_zero false /\
+  go_max (B754_zero true) (B754_zero true) = B754_zero true /\
+  go_max (B754_zero false) (B754_zero false) = B754_zero false /\
+  go_min (B754_zero false) (B754_zero true) = B754_zero true /\
+  go_min (B754_zero true) (B754_zero false) = B754_zero true /\
+  go_min (B754_zero true) (B754_zero true) = B754_zero true /\
+  go_min (B754_zero false) (B754_zero false) = B754_zero false.
+Proof. exact max_min_zeros. Qed.
+Print Assumptions C20_max_min_zeros.
+
+(* +Inf wins max and -Inf wins min even against NaN; otherwise NaN propagates *)
+Theorem C20_max_min_special : forall x : f64,
+  go_max (B754_infinity false) x = B754_infinity false /\
+  go_max x (B754_infinity false) = B754_infinity false /\
+  go_min (B754_infinity true) x = B754_infinity true /\
+  go_min x (B754_infinity true) = B754_infinity true /\
+  (is_pos_inf x = false -> go_max B754_nan x = B754_nan /\ go_max x B754_nan = B754_nan) /\
+  (is_neg_inf x = false -> go_min B754_nan x = B754_nan /\ go_min x B754_nan = B754_nan).
+Proof. exact max_min_special. Qed.
+Print Assumptions C20_max_min_special.
+
+(* the other infinity loses to every number *)
+Theorem C20_max_min_losing_inf : forall y : f64, is_nan_b y = false ->
+  go_max (B754_infinity true) y = y /\ go_max y (B754_infinity true) = y /\
+  go_min (B754_infinity false) y = y /\ go_min y (B754_infinity false) = y.
+Proof. exact max_min_losing_inf. Qed.
+Print Assumptions C20_max_min_losing_inf.
+
+(* ---- 6. integer operands: float64(z) ---- *)
+Theorem C20_conv_int_exact : forall z : Z, (Z.abs z <= 2 ^ 53)%Z ->
+  B2R (conv_int z) = IZR z /\ is_finite (conv_int z) = true.
+Proof. exact conv_int_exact. Qed.
+Print Assumptions C20_conv_int_exact.
+
+(* every int64 and uint64 converts to the nearest binary64 *)
+Theorem C20_conv_int_rounds : forall z : Z, (Z.abs z < 2 ^ 64)%Z ->
+  B2R (conv_int z) = round_NE (IZR z) /\ is_finite (conv_int z) = true.
+Proof. exact conv_int_rounds. Qed.
+Print Assumptions C20_conv_int_rounds.
+
+(* ---- 7. + and * are commutative as floats, hence bit for bit (one NaN; the sign rules of
+        zeros and infinities are symmetric) ---- *)
+Theorem C20_add_comm : forall x y : f64, to_bits (fadd x y) = to_bits (fadd y x).
+Proof. exact fadd_comm_bits. Qed.
+Print Assumptions C20_add_comm.
+
+Theorem C20_mul_comm : forall x y : f64, to_bits (fmul x y) = to_bits (fmul y x).
+Proof. exact fmul_comm_bits. Qed.
+Print Assumptions C20_mul_comm.
+
+Theorem C20_add_comm_eq : forall x y : f64, fadd x y = fadd y x.
+Proof. exact fadd_comm. Qed.
+Print Assumptions C20_add_comm_eq.
+
+Theorem C20_mul_comm_eq : forall x y : f64, fmul x y = fmul y x.
+Proof. exact fmul_comm. Qed.
+Print Assumptions C20_mul_comm_eq.
+
+(* ---- 8. examples on IEEE bit patterns through arith_bits (non-vacuity; by computation).
+        Operation codes: 1 add, 2 sub, 3 mul, 4 div, 5 abs, 6 inc, 7 dec, 8 sqrt, 9 max, 10 min ---- *)
+Local Open Scope Z_scope.
+(* 0.1 + 0.2 = 0.30000000000000004 *)
+Example C20_ex_add : arith_bits 1 0x3FB999999999999A 0x3FC999999999999A = Some 0x3FD3333333333334.
+Proof. vm_compute. reflexivity. Qed.
+(* 0.3 - 0.1 = 0.19999999999999998 *)
+Example C20_ex_sub : arith_bits 2 0x3FD3333333333333 0x3FB999999999999A = Some 0x3FC9999999999999.
+Proof. vm_compute. reflexivity. Qed.
+(* 0.1 * 3 = 0.30000000000000004 *)
+Example C20_ex_mul : arith_bits 3 0x3FB999999999999A 0x4008000000000000 = Some 0x3FD3333333333334.
+Proof. vm_compute. reflexivity. Qed.
+(* 1 / 3 = 0.3333333333333333 *)
+Example C20_ex_div : arith_bits 4 0x3FF0000000000000 0x4008000000000000 = Some 0x3FD5555555555555.
+Proof. vm_compute. reflexivity. Qed.
+(* sqrt 2 = 1.4142135623730951 *)
+Example C20_ex_sqrt : arith_bits 8 0x4000000000000000 0 = Some 0x3FF6A09E667F3BCD.
+Proof. vm_compute. reflexivity. Qed.
+(* 2^53 + 1 = 2^53 (tie, to even), by add and by inc; -2^53 - 1 = -2^53 by dec *)
+Example C20_ex_tie_add : arith_bits 1 0x4340000000000000 0x3FF0000000000000 = Some 0x4340000000000000.
+Proof. vm_compute. reflexivity. Qed.
+Example C20_ex_tie_inc : arith_bits 6 0x4340000000000000 0 = Some 0x4340000000000000.
+Proof. vm_compute. reflexivity. Qed.
+Example C20_ex_tie_dec : arith_bits 7 0xC340000000000000 0 = Some 0xC340000000000000.
+Proof. vm_compute. reflexivity. Qed.
+(* max(+0,-0) = max(-0,+0) = +0, min(+0,-0) = -0 *)
+Example C20_ex_max_zeros : arith_bits 9 0 0x8000000000000000 = Some 0 /\ arith_bits 9 0x8000000000000000 0 = Some 0.
+Proof. vm_compute. split; reflexivity. Qed.
+Example C20_ex_min_zeros : arith_bits 10 0 0x8000000000000000 = Some 0x8000000000000000.
+Proof. vm_compute. reflexivity. Qed.
+(* abs(-0) = -0 (the code tests f < 0), abs(-2.5) = 2.5 *)
+Example C20_ex_abs_negzero : arith_bits 5 0x8000000000000000 0 = Some 0x8000000000000000.
+Proof. vm_compute. reflexivity. Qed.
+Example C20_ex_abs : arith_bits 5 0xC004000000000000 0 = Some 0x4004000000000000.
+Proof. vm_compute. reflexivity. Qed.
+(* sqrt(-1) = NaN, MaxFloat64 + MaxFloat64 = +Inf, 1 / 0 = +Inf, 0 / 0 = NaN *)
+Example C20_ex_sqrt_neg : arith_bits 8 0xBFF0000000000000 0 = Some 0x7FF8000000000000.
+Proof. vm_compute. reflexivity. Qed.
+Example C20_ex_add_overflow : arith_bits 1 0x7FEFFFFFFFFFFFFF 0x7FEFFFFFFFFFFFFF = Some 0x7FF0000000000000.
+Proof. vm_compute. reflexivity. Qed.
+Example C20_ex_div_zero : arith_bits 4 0x3FF0000000000000 0 = Some 0x7FF0000000000000 /\ arith_bits 4 0 0 = Some 0x7FF8000000000000.
+Proof. vm_compute. split; reflexivity. Qed.
+(* max(NaN, +Inf) = +Inf, max(NaN, 1) = NaN *)
+Example C20_ex_max_nan : arith_bits 9 0x7FF8000000000000 0x7FF0000000000000 = Some 0x7FF0000000000000 /\
+  arith_bits 9 0x7FF8000000000000 0x3FF0000000000000 = Some 0x7FF8000000000000.
+Proof. vm_compute. split; reflexivity. Qed.
+(* float64(2^53 + 1) = 2^53, float64(MaxUint64) = 2^64, float64(MinInt64) = -2^63 *)
+Example C20_ex_conv_int : to_bits (conv_int 9007199254740993) = 0x4340000000000000 /\
+  to_bits (conv_int 18446744073709551615) = 0x43F0000000000000 /\
+  to_bits (conv_int (-9223372036854775808)) = 0xC3E0000000000000.
+Proof. vm_compute. repeat split. Qed.
+(* an unknown operation code is rejected *)
+Example C20_ex_bad_op : arith_bits 11 0 0 = None.
+Proof. vm_compute. reflexivity. Qed.
